@@ -15,5 +15,5 @@ for P in $LIST; do
     [ $RC -ne 0 ] && BAD="$BAD $ID(rc=$RC: $(echo "$OUT" | grep 'violations with sig\|^INCONCLUSIVE\|BUILD' | head -2 | tr '\n' ' ' | cut -c1-200))"
   done
   echo "$N: suite [$SUITE] checks: ${BAD:-all 19 silent}"
-  git -C /repo worktree remove --force $WT; rm -rf /verif/harness/.build-*
+  git -C /repo worktree remove --force $WT; rm -rf /verif/harness/.build-$(echo $WT | md5sum | cut -c1-8)
 done
